@@ -369,15 +369,16 @@ def write_evidence(prop, tier, seed, ctx, counts, viol, kf, wres, configs, wall,
     insts = ctx.instances
     distinct = len({(i["rule"], i["inst"]) for i in insts if i.get("nontrivial", True)})
     samples = []
-    seen_rules = set()
+    per_rule = {}
     for i in insts:
-        if i["rule"] in seen_rules and len(samples) >= 12:
+        k = per_rule.get(i["rule"], 0)
+        if k >= 4 and i["ok"]:
             continue
-        if i["rule"] not in seen_rules or len(samples) < 12:
-            seen_rules.add(i["rule"])
-            samples.append(dict(rule=i["rule"], instance=i["inst"], where=i["where"],
-                                verdict="holds" if i["ok"] else "fails",
-                                detail=i.get("note") or i.get("what", "")))
+        per_rule[i["rule"]] = k + 1
+        samples.append(dict(rule=i["rule"], instance=i["inst"], where=i["where"],
+                            verdict="holds" if i["ok"] else "fails",
+                            detail=i.get("note") or i.get("what", "")))
+    from . import absint as _absint
     ev = {
         "property_id": prop,
         "tier": tier,
@@ -399,6 +400,9 @@ def write_evidence(prop, tier, seed, ctx, counts, viol, kf, wres, configs, wall,
             "exhaustive": True,
             "samples": samples,
             "instances_per_rule": counts,
+            "abstract_explorations": _absint.STATS["runs"],
+            "abstract_paths_explored": _absint.STATS["paths"],
+            "functions_interpreted": len(_absint.STATS["functions"]),
             "units_analysed": len(prog.units),
             "functions_analysed": len(prog.functions),
             "preprocessor_configs": configs,
